@@ -724,6 +724,27 @@ def workload(ctx):
                     ctx.case((normal.typed_key(pat), normal.typed_key(tgt)), True, n=0)
                     ctx.count("wide_patterns")
                     ctx.run("C16.unify", (pat, tgt, "pqr", mode))
+        # depth: sums in products in sums ... (3 .. 6 levels on one path), a plain pattern variable
+        # at EVERY level that has to take the operands left over there (two or three of them)
+        kc = [p.Variable(f"k{i}") for i in range(8)]
+        tvs = [p.Variable(f"t{i}") for i in range(24)]
+        for depth in (2, 3, 4, 5, 6):
+            for outer in (p.Sum, p.Product):
+                for nleft in (1, 2, 3):
+                    if not ctx.mine("deep-patterns"):
+                        continue
+                    pat = tgt = kc[7]
+                    it = iter(tvs)
+                    for lvl in range(depth):
+                        cls = outer if (depth - lvl) % 2 else (p.Product if outer is p.Sum else p.Sum)
+                        pv = PV[lvl % 3] if lvl >= depth - 3 else kc[lvl % 7]
+                        left = tuple(next(it) for _ in range(nleft)) if pv in PV else (pv,)
+                        pat = cls((pv, pat, kc[lvl % 7]))
+                        tgt = cls((*left, tgt, kc[lvl % 7]))
+                    ctx.case(("deep-pattern", depth, outer.__name__, nleft), True, n=0)
+                    ctx.count("deep_patterns")
+                    ctx.run("C16.unify", (pat, tgt, "pqr", "inst"))
+                    ctx.run("C16.unify", (pat, shuffle(ctx.sub_rng("deep-shuffle", depth, nleft), tgt), "pqr", "inst"))
         for k, v in tr.handlers().items():
             ctx.count("handler:" + k, v)
     if HAVE_MATCHPY:
@@ -783,6 +804,7 @@ def workload(ctx):
     ctx.floor("unifier_calls", 1500)
     ctx.floor("result_lists_extended_by_the_caller", 1500)
     ctx.floor("wide_patterns", 40)
+    ctx.floor("deep_patterns", 25)
     ctx.floor("near_equal_number_pairs", 20)
     ctx.floor("records", 1000)
     ctx.floor("mode:rename", 500)
